@@ -298,7 +298,7 @@ class Cleaner:
             value = row.get('value')
             try:
                 ammo_type_id = int(value)
-            except TypeError:
+            except (TypeError, ValueError, OverflowError):
                 continue
             tgt_spec = ('evetypes', 'typeID')
             tgt_data.setdefault(tgt_spec, set()).add(ammo_type_id)
@@ -322,7 +322,7 @@ class Cleaner:
             value = row.get('value')
             try:
                 buff_id = int(value)
-            except TypeError:
+            except (TypeError, ValueError, OverflowError):
                 continue
             tgt_spec = ('dbuffcollections', 'buffID')
             tgt_data.setdefault(tgt_spec, set()).add(buff_id)
